@@ -320,11 +320,22 @@ FUNC_MODELS = {
 for _name in ("fullmatch", "match", "search", "finditer", "findall", "sub", "split"):
     def _mk(_n):
         def f(pattern, *a, **k):
+            # module-level signatures: f(pattern, string, flags=0); sub(pattern, repl, string,
+            # count=0, flags=0); split(pattern, string, maxsplit=0, flags=0)
             flags = k.pop("flags", 0)
+            a = list(a)
+            if _n == "sub":
+                if len(a) > 3:
+                    flags = a.pop(3)
+            elif _n == "split":
+                if len(a) > 2:
+                    flags = a.pop(2)
+            elif len(a) > 1:
+                flags = a.pop(1)
             if isinstance(pattern, SSeq):
                 pattern = pattern.enumerate_concrete()
             pat = pattern if isinstance(pattern, re.Pattern) else re.compile(pattern, flags)
-            return _rx_call(pat, _n, a, k)
+            return _rx_call(pat, _n, tuple(a), k)
         return f
     FUNC_MODELS[getattr(re, _name)] = _mk(_name)
 
